@@ -242,7 +242,7 @@ def r_independent(ctx, model):
 
     class Only(Proxy):
         def check(self, cond, instance, *a, **k):
-            if instance.startswith(("frequencies read", "all three outputs")):
+            if "every non-acoustic" in instance:
                 return self.ctx.check(cond, instance, *a, **k)
             return cond
     C11.r_loop(Only(ctx, {"x"}), model)
